@@ -40,7 +40,7 @@ func TestVerifC07(t *testing.T) {
 	vocab := vVocab(c)
 	q := c.q
 
-	kinds := []string{"exact", "M5", "M15", "M20", "TH", "TT", "CC", "scenario"}
+	kinds := []string{"exact", "M5", "M15", "M20", "TH", "TT", "TWH", "TWT", "CC", "scenario"}
 	type cdesc struct {
 		kind string
 		doc  int
@@ -49,7 +49,7 @@ func TestVerifC07(t *testing.T) {
 	rr := rand.New(rand.NewSource(e.seed*999983 + 7))
 	if e.quick() {
 		for di := range docs {
-			cases = append(cases, cdesc{kinds[di%6], di}, cdesc{kinds[1+(di+2)%3], di})
+			cases = append(cases, cdesc{kinds[di%8], di}, cdesc{kinds[1+(di+2)%3], di}, cdesc{kinds[6+di%2], di})
 		}
 		for k := 0; k < 60; k++ {
 			cases = append(cases, cdesc{"CC", rr.Intn(len(docs))})
@@ -57,7 +57,7 @@ func TestVerifC07(t *testing.T) {
 	} else {
 		for rep := 0; rep < 3; rep++ {
 			for di := range docs {
-				for _, k := range kinds[:6] {
+				for _, k := range kinds[:8] {
 					cases = append(cases, cdesc{k, di})
 				}
 			}
@@ -91,6 +91,22 @@ func TestVerifC07(t *testing.T) {
 				x = vTruncate(r, raw, true)
 			case "TT":
 				x = vTruncate(r, raw, false)
+			case "TWH", "TWT":
+				// word-level truncation (also of very short documents): 5-19% of the
+				// words missing at the head or at the tail
+				w := strings.Fields(raw)
+				k := len(w) * (5 + r.Intn(15)) / 100
+				if k < 1 {
+					k = 1
+				}
+				if k >= len(w) {
+					k = len(w) - 1
+				}
+				if cd.kind == "TWH" {
+					x = strings.Join(w[k:], " ")
+				} else {
+					x = strings.Join(w[:len(w)-k], " ")
+				}
 			case "CC":
 				o := docs[r.Intn(len(docs))]
 				if len(o.raw) > 12000 {
